@@ -614,3 +614,48 @@ def q5(proj, rep):
     visit(f.node.body, [])
     rep.count('Q5.count_loops', n)
     return n
+
+
+# ------------------------------------------------------------------------------------------------ Q6
+RULE_Q6 = ('Q6: the weight enumerators are normalised by the true code dimension K: A_w by K^2, B_w by K, where K is `code.shape[0]` read BEFORE the code is '
+           'zero-padded to a power of two (the padding only exists so that the simulator can index the logical register). Reading K after the padding '
+           'breaks the sum rules 1 + sum A = 2^n / K, 1 + sum B = 2^n K for every K that is not a power of two.')
+
+
+def q6(proj, rep):
+    rep.rule('Q6', RULE_Q6)
+    f = proj.func('numqi.qec._internal.quantum_weight_enumerator')
+    m = f.module
+    rep.touch(m)
+    body = f.node.body
+    n = 0
+    divs = [s for s in body if isinstance(s, ast.AugAssign) and isinstance(s.op, ast.Div) and isinstance(s.target, ast.Name)]
+    rebinds = [s for s in ast.walk(f.node) if isinstance(s, ast.Assign) and isinstance(s.targets[0], ast.Name) and s.targets[0].id == 'code']
+    first_rebind = min((s.lineno for s in rebinds), default=10 ** 9)
+    if len(divs) < 2:
+        rep.undecided('Q6', f.qual, 'normalising divisions not found', m, f.node, text='normalisation')
+        return 0
+    for d in divs:
+        n += 1
+        names = [x.id for x in ast.walk(d.value) if isinstance(x, ast.Name)]
+        t = ast.unparse(d.value).replace(' ', '')
+        if len(names) != 1:
+            rep.undecided('Q6', f'{f.qual}[{d.target.id}]', f'divisor `{t}` not a power of one name', m, d)
+            n -= 1
+            continue
+        K = names[0]
+        kdefs = [s for s in body if isinstance(s, ast.Assign) and isinstance(s.targets[0], ast.Name) and s.targets[0].id == K]
+        want_pow = 2 if d.target.id.endswith('A') else 1
+        pow_ok = (t == f'{K}**2') if want_pow == 2 else (t == K)
+        if len(kdefs) != 1 or ast.unparse(kdefs[0].value).replace(' ', '') != 'code.shape[0]':
+            rep.undecided('Q6', f'{f.qual}[{d.target.id}]', f'`{K}` is not bound once from code.shape[0]', m, d)
+            n -= 1
+        elif kdefs[0].lineno > first_rebind:
+            rep.violation('Q6', f'{f.qual}[{d.target.id}]', f'`{K} = code.shape[0]` is read after `code` was zero-padded (line {first_rebind}): {d.target.id} is divided by the '
+                          f'padded dimension, so the sum rules fail for every code dimension that is not a power of two', m, kdefs[0])
+        elif not pow_ok:
+            rep.violation('Q6', f'{f.qual}[{d.target.id}]', f'`{ast.unparse(d)}`: {d.target.id} must be divided by K{"^2" if want_pow == 2 else ""}', m, d)
+        else:
+            rep.ok('Q6', f'{f.qual}[{d.target.id}]', f'`{ast.unparse(d)}` with {K} = code.shape[0] read before the padding', m, d)
+    rep.count('Q6.normalisations', n)
+    return n
